@@ -34,7 +34,12 @@ PASSWORDS = {
     "B31": "B" + "0123456789" * 3,                        # 31 bytes
     "B32": "B" + "0123456789" * 3 + "y",                  # 32 bytes
     "B33": "B" + "0123456789" * 3 + "yx",                 # 33 bytes: same first 32 bytes as B32
+    # compatibility characters that NFKC (the normalisation of SASLprep) folds; q2 is NFC-normalised as it stands
+    "q": "pass2wordIX-fi",
+    "q2": "\uff50ass\u00b2word\u2168-\ufb01",             # fullwidth p, superscript two, ROMAN NUMERAL NINE, ligature fi
 }
+import unicodedata as _ud
+assert _ud.ucd_3_2_0.normalize("NFKC", PASSWORDS["q2"]) == PASSWORDS["q"] and _ud.ucd_3_2_0.normalize("NFC", PASSWORDS["q2"]) == PASSWORDS["q2"]
 assert len(PASSWORDS["N"].encode("utf-8")) == 141 and PASSWORDS["N"].encode("utf-8")[:127] == PASSWORDS["N2"].encode("utf-8")[:127]
 assert [len(PASSWORDS[k]) for k in ("B31", "B32", "B33")] == [31, 32, 33]
 
